@@ -7,6 +7,7 @@
 #include "nmtools/array/index/tuple_at.hpp"
 #include "nmtools/array/index/product.hpp"
 #include "nmtools/array/index/compute_indices.hpp"
+#include "nmtools/array/index/normalize_axis.hpp"
 #include "nmtools/utility/shape.hpp"
 
 namespace nmtools::index
@@ -31,9 +32,10 @@ namespace nmtools::index
      * @return constexpr auto 
      */
     template <typename ashape_t, typename bshape_t, typename indices_t, typename axis_t>
-    constexpr auto concatenate(const ashape_t& ashape, const bshape_t& bshape, const indices_t& indices, [[maybe_unused]] axis_t axis)
+    constexpr auto concatenate(const ashape_t& ashape, const bshape_t& bshape, const indices_t& indices, [[maybe_unused]] axis_t axis_)
     {
-        // TODO: allow negative axis
+        // a negative axis counts from the last axis (numpy); None is passed through
+        [[maybe_unused]] const auto axis = wrap_axis(axis_, len(ashape));
         using a_indices_t = meta::resolve_optype_t<concatenate_t,ashape_t,indices_t,axis_t>;
         using b_indices_t = meta::resolve_optype_t<concatenate_t,bshape_t,indices_t,axis_t>;
 
@@ -163,9 +165,10 @@ namespace nmtools::index
      * @return constexpr auto 
      */
     template <typename ashape_t, typename bshape_t, typename axis_t, typename asize_t=size_t, typename bsize_t=size_t>
-    constexpr auto shape_concatenate(const ashape_t& ashape, const bshape_t& bshape, [[maybe_unused]] axis_t axis, asize_t=asize_t{}, bsize_t=bsize_t{})
+    constexpr auto shape_concatenate(const ashape_t& ashape, const bshape_t& bshape, [[maybe_unused]] axis_t axis_, asize_t=asize_t{}, bsize_t=bsize_t{})
     {
-        // TODO: allow negative axis
+        // a negative axis counts from the last axis (numpy); None is passed through
+        [[maybe_unused]] const auto axis = wrap_axis(axis_, len(ashape));
         using result_t = meta::resolve_optype_t<shape_concatenate_t,ashape_t,bshape_t,axis_t,asize_t,bsize_t>;
 
         if constexpr (meta::is_constant_index_array_v<result_t>) {
